@@ -161,10 +161,81 @@ func c16Channels(c *Ctx, d *driverModel) {
 			}
 		}
 	}
-	for _, mc := range goClosures(d.process) {
-		fn := mc.Fn.(*ssa.Function)
-		if senders[fn] && !joined {
-			unjoined = append(unjoined, c.P.FuncName(fn))
+	// a join that is not written as a plain Wait in the loop: a deferred call registered after the deferred
+	// close (so it runs before it) reaches WaitGroup.Wait, and every sending goroutine is counted in
+	// (Add before the go statement, deferred Done inside)
+	waitsBeforeClose := false
+	{
+		var closeAt, waitAt ssa.Instruction
+		var reachesWait func(f *ssa.Function, depth int) bool
+		reachesWait = func(f *ssa.Function, depth int) bool {
+			if f == nil || f.Blocks == nil || depth > 4 {
+				return false
+			}
+			for _, b := range f.Blocks {
+				for _, ins := range b.Instrs {
+					if call, ok := ins.(ssa.CallInstruction); ok {
+						cal := call.Common().StaticCallee()
+						if cal != nil && cal.String() == "(*sync.WaitGroup).Wait" {
+							return true
+						}
+						if cal != nil && cal.Pkg == d.process.Pkg && reachesWait(cal, depth+1) {
+							return true
+						}
+					}
+					if mc, ok := ins.(*ssa.MakeClosure); ok && reachesWait(mc.Fn.(*ssa.Function), depth+1) {
+						return true
+					}
+				}
+			}
+			return false
+		}
+		for _, b := range d.process.Blocks {
+			for _, ins := range b.Instrs {
+				df, ok := ins.(*ssa.Defer)
+				if !ok {
+					continue
+				}
+				if bi, ok := df.Call.Value.(*ssa.Builtin); ok && bi.Name() == "close" {
+					closeAt = ins
+				}
+				if cal := df.Call.StaticCallee(); cal != nil && (cal.String() == "(*sync.WaitGroup).Wait" || reachesWait(cal, 0)) {
+					waitAt = ins
+				}
+			}
+		}
+		waitsBeforeClose = closeAt != nil && waitAt != nil && instrDominates(closeAt, waitAt)
+	}
+	counted := func(fn *ssa.Function, site ssa.Instruction) bool {
+		done := false
+		for _, b := range fn.Blocks {
+			for _, ins := range b.Instrs {
+				if df, ok := ins.(*ssa.Defer); ok {
+					if cal := df.Call.StaticCallee(); cal != nil && cal.String() == "(*sync.WaitGroup).Done" && b == fn.Blocks[0] {
+						done = true
+					}
+				}
+			}
+		}
+		add := false
+		for _, ins := range site.Block().Instrs {
+			if ins == site {
+				break
+			}
+			if call, ok := ins.(ssa.CallInstruction); ok {
+				if cal := call.Common().StaticCallee(); cal != nil && cal.String() == "(*sync.WaitGroup).Add" {
+					add = true
+				}
+			}
+		}
+		return done && add
+	}
+	for _, gt := range goTargets(d.process) {
+		if gt.timer {
+			continue
+		}
+		if senders[gt.fn] && !joined && !(waitsBeforeClose && counted(gt.fn, gt.site)) {
+			unjoined = append(unjoined, c.P.FuncName(gt.fn))
 		}
 	}
 	sort.Strings(unjoined)
